@@ -77,3 +77,9 @@ package p2p
 //@     loop [for]:
 //@       invariant [env] gst != nil && !disableHeartbeatVerify
 //@   end-closure
+
+// the per-chain error counters of the registry: NewRegistry makes the map, the package-level
+// DefaultRegistry is initialised with it (environment: package initialisation has run)
+//@ func (r *registry) AddErrorCount(chain vaa.ChainID, delta uint64)
+//@   assume-contract
+//@   requires r != nil
